@@ -18,7 +18,7 @@ ASSUMPTIONS = ['the generating law is evaluated in math floats by the oracle',
                'recovery tolerance 5% over the span of the beads, as the property states']
 BUDGET = {
     'quick': dict(examples=2400, time_s=240),
-    'thorough': dict(examples=120000, time_s=1500),
+    'thorough': dict(examples=120000, time_s=1500, fuzz=dict(workers=8, runs=6000, max_s=300)),
 }
 
 LADDERS = [
